@@ -15,6 +15,8 @@ inline MessageRef Payload(uint32 what, const std::string & v, uint32 pad = 0)
    MessageRef p = GetMessageFromPool(what);
    if ((!v.empty())&&(v != "-")) (void) p()->AddInt32("v", (int32) atoi(v.c_str()));
    if (pad) {String s; for (uint32 i=0; i<pad; i++) s += (char)('a' + (i%26)); (void) p()->AddString("pad", s);}
+   // a two-valued string field derived from the what-code, for filters that look at a value other than the first one ("t" = ["x<what%3>", "y<what%2>"]); every third payload has only one value
+   {char b[16]; snprintf(b, sizeof(b), "x%u", what % 3); (void) p()->AddString("t", b); if ((what % 3) != 2) {snprintf(b, sizeof(b), "y%u", what % 2); (void) p()->AddString("t", b);}}
    return p;
 }
 
